@@ -3293,7 +3293,7 @@ class Error(Output):
                 mfcst = np.mean(fcst)
                 mobs = np.mean(obs)
                 if len(obs) > 0 and len(fcst) > 0:
-                    serr[i, f] = np.mean(obs - fcst)
+                    serr[i, f] = np.mean(fcst - obs)
                     rmse[i, f] = np.sqrt(np.mean((obs - fcst) ** 2))
                     uerr[i, f] = np.sqrt(rmse[i, f] ** 2 - serr[i, f] ** 2)
             mpl.plot(uerr[:, f], serr[:, f], label=labels[f], **opts)
